@@ -1238,3 +1238,370 @@ func ruleVerdictsAreNotExtrapolated(c *core.Ctx, rule string) {
 	}
 	c.Floor(rule, "calls that judge a block in validateBlock", n, 1)
 }
+
+// ---- wounds are merged only with wounds of their own kind ----------------------------------------------------
+
+// ruleMergedWoundsShareAKind (R05.10): where the aggregator widens the pending wound with an incoming one
+// (pending.End = incoming.End), a test that fixes the incoming wound's kind to ONE constant lies on every path
+// to it - and the same constant guards every place the pending wound is set - or the two kinds were compared
+// equal. A range merged across kinds keeps the pending wound's kind: a FILE wound swallowed by a run of healthy
+// markers is a wound no consumer ever sees.
+func ruleMergedWoundsShareAKind(c *core.Ctx, rule string) {
+	c.Rule(rule, "the aggregator merges a wound only into a pending wound of the same kind")
+	agg := c.P.Fn("pwr", "AggregateWounds")
+	if agg == nil {
+		c.Missing(rule, "pwr.AggregateWounds", "not found")
+		return
+	}
+	kindOf := func(in ssa.Instruction) (ks map[int64]bool, sameKinds bool) {
+		ks = map[int64]bool{}
+		for _, g := range core.Guards(in) {
+			bo, ok := g.Cond.(*ssa.BinOp)
+			if !ok || (bo.Op != token.EQL && bo.Op != token.NEQ) {
+				continue
+			}
+			holds := (bo.Op == token.EQL) == g.Val
+			if !holds {
+				continue
+			}
+			_, nx, okx := core.FieldOf(bo.X)
+			_, ny, oky := core.FieldOf(bo.Y)
+			if okx && nx == "Kind" {
+				if k, isK := core.ConstInt(bo.Y); isK {
+					ks[k] = true
+				} else if oky && ny == "Kind" {
+					sameKinds = true
+				}
+			}
+		}
+		return ks, sameKinds
+	}
+	n := 0
+	for _, fn := range core.WithAnons(agg) {
+		var merges, sets []ssa.Instruction
+		core.Instrs(fn, func(in ssa.Instruction) {
+			st, ok := in.(*ssa.Store)
+			if !ok {
+				return
+			}
+			// pending = incoming (a store of a *Wound into a captured / local cell)
+			if core.TypeName(st.Val.Type()) == "pwr.Wound" {
+				if _, isPtr := st.Val.Type().(*types.Pointer); isPtr && !core.IsNilConst(st.Val) {
+					switch core.CellRoot(st.Addr).(type) {
+					case *ssa.Alloc, *ssa.FreeVar:
+						sets = append(sets, in)
+					}
+				}
+				return
+			}
+			fa, ok := st.Addr.(*ssa.FieldAddr)
+			if !ok || core.TypeName(fa.X.Type()) != "pwr.Wound" {
+				return
+			}
+			if _, nm, _ := core.FieldOf(st.Addr); nm != "End" && nm != "Start" {
+				return
+			}
+			// the value comes from a field of another wound
+			for _, o := range core.Origins(st.Val) {
+				if b, nm, ok := core.FieldOf(o); ok && (nm == "End" || nm == "Start") && core.TypeName(b.Type()) == "pwr.Wound" && !agreeVal(b, fa.X, 0) {
+					merges = append(merges, in)
+					return
+				}
+				if ld, ok := o.(*ssa.UnOp); ok && ld.Op == token.MUL {
+					if b, nm, ok := core.FieldOf(ld.X); ok && (nm == "End" || nm == "Start") && core.TypeName(b.Type()) == "pwr.Wound" && !agreeVal(b, fa.X, 0) {
+						merges = append(merges, in)
+						return
+					}
+				}
+			}
+		})
+		for _, m := range merges {
+			n++
+			ks, same := kindOf(m)
+			ok := same
+			why := ""
+			if !ok {
+				if len(ks) != 1 {
+					why = "no test fixing the incoming wound's kind to one constant lies on every path to the merge"
+				} else {
+					ok = true
+					for _, s := range sets {
+						ks2, _ := kindOf(s)
+						match := len(ks2) == 1
+						for k := range ks {
+							if !ks2[k] {
+								match = false
+							}
+						}
+						if !match {
+							ok, why = false, "the pending wound can be set from a wound of another kind than the one that is merged into it"
+						}
+					}
+				}
+			}
+			c.Check(ok, rule, core.FnName(agg), "a wound is merged only into a pending wound of its own kind", core.InstrPos(m),
+				"the merge and every assignment of the pending wound lie behind the same single-kind test (or the kinds were compared equal)",
+				why+": the merged range keeps the pending wound's kind, so a FILE wound that follows a run of healthy markers (a damaged last block, say) disappears into a CLOSED_FILE range that every consumer takes for healthy - fail-fast validation then returns nil for a damaged directory")
+		}
+	}
+	c.Floor(rule, "merges of an incoming wound into the pending one", n, 1)
+}
+
+// ---- link targets are created as recorded ---------------------------------------------------------------------
+
+// ruleLinkTargetsVerbatim (R19.11): what package archiver hands to Symlink (its own helper or os.Symlink) as the
+// link's target does not go through a function that rewrites paths lexically (Clean, Join, Abs, Rel,
+// EvalSymlinks, Base, Dir). A target such as ./a, b/ or jump/../x (jump a link) is a different link once it is
+// 'cleaned' - and resolves to a different file when a component before the .. is itself a link.
+func ruleLinkTargetsVerbatim(c *core.Ctx, rule string, pkgSuffix string, floor int) {
+	c.Rule(rule, "a symbolic link's target is created as it was recorded, not lexically rewritten")
+	rewriters := map[string]bool{"path/filepath.Clean": true, "path.Clean": true, "path/filepath.Join": true, "path.Join": true, "path/filepath.Abs": true,
+		"path/filepath.Rel": true, "path/filepath.EvalSymlinks": true, "path/filepath.Base": true, "path.Base": true, "path/filepath.Dir": true, "path.Dir": true}
+	n := 0
+	for _, top := range c.P.SrcFuncs() {
+		if top.Parent() != nil || !strings.HasSuffix(core.PkgPathOf(top), pkgSuffix) {
+			continue
+		}
+		for _, fn := range core.WithAnons(top) {
+			core.Instrs(fn, func(in ssa.Instruction) {
+				cl, ok := in.(*ssa.Call)
+				if !ok {
+					return
+				}
+				nm := core.CalleeName(cl)
+				if nm != "os.Symlink" && !strings.HasSuffix(nm, "archiver.Symlink") && !strings.HasSuffix(nm, "screw.Symlink") {
+					return
+				}
+				// inside the helper itself the target is a parameter: judged at its callers
+				n++
+				bad := ""
+				seen := map[ssa.Value]bool{}
+				var walk func(v ssa.Value, d int)
+				walk = func(v ssa.Value, d int) {
+					if v == nil || d > 8 || seen[v] || bad != "" {
+						return
+					}
+					seen[v] = true
+					for _, o := range core.Origins(v) {
+						if rc, ok := o.(*ssa.Call); ok {
+							if rewriters[core.CalleeName(rc)] {
+								bad = core.CalleeName(rc)
+								return
+							}
+							if !rc.Call.IsInvoke() {
+								for _, a := range rc.Call.Args {
+									if bt, ok := a.Type().Underlying().(*types.Basic); ok && bt.Info()&types.IsString != 0 {
+										walk(a, d+1)
+									}
+								}
+							}
+						}
+					}
+				}
+				walk(cl.Call.Args[0], 0)
+				c.Check(bad == "", rule, core.FnName(top), "the target handed to "+nm+" is not lexically rewritten", core.InstrPos(in),
+					"the link target reaches the call as it was recorded (separators converted at most)",
+					"the link target goes through "+bad+" before the link is made: targets that are valid but not in their shortest spelling (./a, b/, x//y, jump/../x) come out as different links - and where a component before a .. is itself a link, as links to a different file")
+			})
+		}
+	}
+	c.Floor(rule, "symlink creations in the package", n, floor)
+}
+
+// ---- every control message of a bsdiff series is applied -----------------------------------------------------
+
+// ruleEveryControlIsApplied (R12.9): in the whole-series applier (*PatchContext).Patch, from reading a control
+// message the loop comes round to the next read only through Apply. A control whose Add and Copy are both empty
+// still carries a Seek: skipping it shifts every later addition against the old file.
+func ruleEveryControlIsApplied(c *core.Ctx, rule string) {
+	c.Rule(rule, "the series loop of bsdiff's Patch hands every control it reads to Apply")
+	fn := c.P.Fn("bsdiff", "PatchContext.Patch")
+	if fn == nil {
+		c.Missing(rule, "bsdiff.(*PatchContext).Patch", "not found")
+		return
+	}
+	isApply := func(in ssa.Instruction) bool {
+		cl, ok := in.(*ssa.Call)
+		return ok && strings.HasSuffix(core.CalleeName(cl), "IndividualPatchContext).Apply")
+	}
+	n := 0
+	core.Instrs(fn, func(in ssa.Instruction) {
+		cl, ok := in.(ssa.CallInstruction)
+		if !ok {
+			return
+		}
+		idx := wireReadCall(cl)
+		if idx < 0 || core.TypeName(core.StripConv(cl.Common().Args[idx]).Type()) != "bsdiff.Control" {
+			return
+		}
+		if core.FindPath(fn, in, isInstr(in), nil) == nil {
+			return // not in a loop
+		}
+		n++
+		p := core.FindPath(fn, in, isInstr(in), isApply)
+		c.Check(p == nil, rule, core.FnName(fn), "every control read in the loop is applied before the next is read", core.InstrPos(in),
+			"the loop comes back to this read only through Apply", "a control message can be read and passed over (one whose Add and Copy are empty, say): it still carries a Seek, and without it every later addition is summed with the wrong bytes of the old file - right length, no error, wrong content").Path = c.P.PathStrings(p)
+	})
+	c.Floor(rule, "control reads in the loop of Patch", n, 1)
+}
+
+// ---- an absent sub-message is not dereferenced ---------------------------------------------------------------
+
+// ruleAbsentSubMessagesAreNotDereferenced (R10.ptr): a singular message-typed field of a generated (protobuf)
+// message is a pointer that is nil when the stream did not carry the field. Where such a pointer - read from the
+// field, returned by the generated getter, or received as a parameter from a call that hands one over - has a
+// field selected directly (p.Field, not the nil-safe p.GetField()), a test of p against nil lies on every path.
+func ruleAbsentSubMessagesAreNotDereferenced(c *core.Ctx, rule string) {
+	c.Rule(rule, "a sub-message pointer that the stream may not have carried is tested against nil before a field is selected from it")
+	isPBPtr := func(t types.Type) bool {
+		pt, ok := t.(*types.Pointer)
+		if !ok {
+			return false
+		}
+		nt, ok := pt.Elem().(*types.Named)
+		if !ok || nt.Obj().Pkg() == nil {
+			return false
+		}
+		if _, isStruct := nt.Underlying().(*types.Struct); !isStruct {
+			return false
+		}
+		return strings.Contains(c.P.Pos(nt.Obj().Pos()), ".pb.go:")
+	}
+	inPB := func(fn *ssa.Function) bool { return strings.Contains(c.P.Pos(fn.Pos()), ".pb.go:") }
+	maybe := map[ssa.Value]bool{}
+	var fns []*ssa.Function
+	for _, fn := range c.P.SrcFuncs() {
+		if !strings.HasPrefix(core.PkgPathOf(fn), core.Mod) || inPB(fn) {
+			continue
+		}
+		fns = append(fns, fn)
+		core.Instrs(fn, func(in ssa.Instruction) {
+			switch x := in.(type) {
+			case *ssa.UnOp:
+				if x.Op == token.MUL && isPBPtr(x.Type()) {
+					if fa, ok := x.X.(*ssa.FieldAddr); ok && isPBPtr(fa.X.Type()) {
+						maybe[x] = true
+					}
+				}
+			case *ssa.Call:
+				if f := x.Call.StaticCallee(); f != nil && strings.HasPrefix(f.Name(), "Get") && f.Signature.Recv() != nil && isPBPtr(f.Signature.Recv().Type()) && isPBPtr(x.Type()) {
+					maybe[x] = true
+				}
+			}
+		})
+	}
+	// nilTested: on every path to at, base was found non-nil
+	nilTested := func(at ssa.Instruction, base ssa.Value) bool {
+		return hasGuard(at, func(g core.Guard) bool {
+			bo, ok := g.Cond.(*ssa.BinOp)
+			if !ok || (bo.Op != token.EQL && bo.Op != token.NEQ) {
+				return false
+			}
+			var t ssa.Value
+			if core.IsNilConst(bo.Y) {
+				t = bo.X
+			} else if core.IsNilConst(bo.X) {
+				t = bo.Y
+			} else {
+				return false
+			}
+			if !(agreeVal(t, base, 0) || sameVal(t, base)) {
+				same := false
+				for _, o := range core.Origins(base) {
+					if agreeVal(t, o, 0) {
+						same = true
+					}
+				}
+				if !same {
+					return false
+				}
+			}
+			return (bo.Op == token.NEQ) == g.Val
+		})
+	}
+	isMaybe := func(v ssa.Value) bool {
+		if maybe[v] {
+			return true
+		}
+		for _, o := range core.Origins(v) {
+			if maybe[o] {
+				return true
+			}
+		}
+		return false
+	}
+	// hand-over to parameters of module functions (to a fixed point; three rounds are plenty)
+	for round := 0; round < 3; round++ {
+		for _, fn := range fns {
+			core.Instrs(fn, func(in ssa.Instruction) {
+				cl, ok := in.(ssa.CallInstruction)
+				if !ok {
+					return
+				}
+				f := cl.Common().StaticCallee()
+				if f == nil || f.Blocks == nil || !strings.HasPrefix(core.PkgPathOf(f), core.Mod) || inPB(f) {
+					return
+				}
+				args := cl.Common().Args
+				for i, a := range args {
+					if i < len(f.Params) && isPBPtr(a.Type()) && isMaybe(a) && !nilTested(in, a) {
+						maybe[f.Params[i]] = true
+					}
+				}
+			})
+		}
+	}
+	n := 0
+	for _, fn := range fns {
+		core.Instrs(fn, func(in ssa.Instruction) {
+			fa, ok := in.(*ssa.FieldAddr)
+			if !ok || !isPBPtr(fa.X.Type()) || !isMaybe(fa.X) {
+				return
+			}
+			n++
+			base := fa.X
+			guarded := nilTested(in, base)
+			_, nm, _ := core.FieldOf(fa)
+			c.Check(guarded, rule, core.FnName(fn), "field "+nm+" selected from "+core.Describe(base)+" only behind a nil test", core.InstrPos(in),
+				"a test of the pointer against nil lies on every path to the selection", "a field is selected directly from a sub-message pointer that is nil when the stream did not carry that field (a well-framed header without compression settings, say): the reader of a patch or signature crashes with a nil pointer dereference where it should return an error")
+		})
+	}
+	c.Floor(rule, "direct field selections from possibly absent sub-messages", n, 1)
+}
+
+// ---- a remainder is not taken with a mask of a run-time divisor ------------------------------------------------
+
+// ruleNoMaskForRuntimeModulo (R11.8): in package wsync nothing is computed as x & (n - 1) with n a value of the
+// run (the context's block size): that equals x % n only when n is a power of two, and the block size is the
+// caller's choice.
+func ruleNoMaskForRuntimeModulo(c *core.Ctx, rule string) {
+	c.Rule(rule, "no x & (n-1) with a run-time n in package wsync")
+	nFn := 0
+	for _, top := range c.P.SrcFuncs() {
+		if !strings.HasSuffix(core.PkgPathOf(top), "/wsync") {
+			continue
+		}
+		nFn++
+		core.Instrs(top, func(in ssa.Instruction) {
+			bo, ok := in.(*ssa.BinOp)
+			if !ok || bo.Op != token.AND {
+				return
+			}
+			for _, side := range []ssa.Value{bo.X, bo.Y} {
+				sub, ok := core.StripConv(side).(*ssa.BinOp)
+				if !ok || sub.Op != token.SUB {
+					continue
+				}
+				if k, isK := core.ConstInt(sub.Y); !isK || k != 1 {
+					continue
+				}
+				if _, isConst := core.StripConv(sub.X).(*ssa.Const); isConst {
+					continue
+				}
+				c.Bad(rule, core.FnName(top), "mask "+core.Describe(bo), core.InstrPos(in),
+					"a remainder is taken as x & (n-1) where n is a value of the run (the block size): that is x % n only for powers of two; with any other block size the short last block of an old file comes out too short (its tail is dropped from the replay) or too long")
+			}
+		})
+	}
+	c.Floor(rule, "functions of package wsync", nFn, 10)
+}
